@@ -40,6 +40,9 @@ def variant(vseed):
         "justborn": True,
         "cancel_one": r.choice([None, "separate", "blockwise", "blockwise"]),
         # a transport error for one of the peers reported just before shutdown is called
+        # the raw client re-uses one token for all its requests (a slow one is superseded while its handler still
+        # runs) and refreshes its observation on the same token
+        "reuse_token": vseed % 2 == 1,
         "icmp": r.choice([None, ("10.0.0.10", 5683, 1e-7), ("10.0.0.14", 40000, 1e-7), ("10.0.0.11", 5683, 1e-7), ("10.0.0.13", 5683, 1e-3), ("10.0.0.12", 5683, 1e-7)]),
     }
 
@@ -163,12 +166,22 @@ def run(v, seed, shutdown_at):
         def client_traffic(k):
             if pc.closed:
                 return
-            pc.send(X, rc.Msg(rc.CON, 2, pc.next_mid(), bytes([0x70 + k]), ((11, b"r"),), b"d=%s;c=69;p=x" % repr(v["slow"]).encode()))
+            pc.send(X, rc.Msg(rc.CON, 2, pc.next_mid(), bytes([0x70 + (0 if v.get("reuse_token") else k)]), ((11, b"r"),), b"d=%s;c=69;p=x" % repr(v["slow"]).encode()))
             if k < 7:
                 loop.call_later(1.3, client_traffic, k + 1)
 
         loop.call_later(0.2, client_traffic, 0)
-        pc.send(X, rc.Msg(rc.CON if v["observer_type"] == "CON" else rc.NON, 1, pc.next_mid(), b"\\x6f", ((6, b""), (11, b"obs")), b""))
+        pc.send(X, rc.Msg(rc.CON if v["observer_type"] == "CON" else rc.NON, 1, pc.next_mid(), b"\x6f", ((6, b""), (11, b"obs")), b""))
+
+        def refresh_observation(n):
+            if pc.closed:
+                return
+            pc.send(X, rc.Msg(rc.CON if v["observer_type"] == "CON" else rc.NON, 1, pc.next_mid(), b"\x6f", ((6, b""), (11, b"obs")), b""))
+            if n < 3:
+                loop.call_later(3.7, refresh_observation, n + 1)
+
+        if v.get("reuse_token"):
+            loop.call_later(2.45, refresh_observation, 0)
 
         def state_change():
             obsres.n += 1
